@@ -49,9 +49,16 @@ def slot_exprs(a: Atom) -> List[Optional[ast.AST]]:
     node = a.node
     if a.dir == 'w' and isinstance(node, ast.Call):
         args = node.args[1:] if dotted(node.func) in ('struct.pack', 'struct.pack_into') else node.args
-        if any(isinstance(x, ast.Starred) for x in args) or len(args) != n:
+        if not any(isinstance(x, ast.Starred) for x in args):
+            return list(args) if len(args) == n else [None] * n
+        # starred arguments fill an unknown number of slots in the middle: the plain arguments in front of the first star and behind the
+        # last one are still the first / last slots
+        first = next(i for i, x in enumerate(args) if isinstance(x, ast.Starred))
+        last = max(i for i, x in enumerate(args) if isinstance(x, ast.Starred))
+        head, tail = list(args[:first]), list(args[last + 1:])
+        if len(head) + len(tail) > n:
             return [None] * n
-        return list(args)
+        return head + [None] * (n - len(head) - len(tail)) + tail
     return [None] * n
 
 
@@ -277,6 +284,13 @@ def link_records(ctx: Any, rule: str, mod: Module, label: str, rrecs: List[List[
             rname = rs.name.split('.')[0].split('[')[0]
             fr = set(reach.get(rname, set()))
             fw, wcomp = writer_fields(ws.expr, wlocals)
+            if fr and not fw and isinstance(ws.expr, ast.Name) and ws.expr.id in wlocals and all(isinstance(d, ast.Constant) for d in wlocals[ws.expr.id]):
+                # the writer packs a local that is a constant on every path, where the reader stores the slot into a record field: whatever
+                # the record held is replaced by that constant in the file
+                n += 1
+                ctx.check(rule, False, mod, ws.expr, f'{label}: slot {i} (`{rs.code}`) is stored by the reader into field(s) {sorted(fr)} (via `{rs.name}`) but the writer packs the local `{ws.expr.id}`, which is only ever '
+                          f'assigned constants ({", ".join(sorted({U(d) for d in wlocals[ws.expr.id]}))}): the field is never written', func=wname, text=f'{label} slot {i} {rs.name}')
+                continue
             if not fr or not fw:
                 continue
             n += 1
